@@ -12,7 +12,7 @@ import (
 func init() {
 	register(stream{
 		name: "glob",
-		rule: "every (pattern, string) pair over the alphabet {a,b,*,\\} with |pattern| ≤ N and |string| ≤ N (N=4 quick, 5 thorough), evaluated through policy.Like + Policy.Match on a string node, plus random longer pairs and multi-byte UTF-8. Non-trivial = the pattern contains a wildcard or an escape. Distinct = distinct protocol lines.",
+		rule: "every (pattern, string) pair over the alphabet {a,b,*,\\} with |pattern| ≤ N and |string| ≤ N (N=4 quick, 5 thorough), evaluated through policy.Like + Policy.Match on a string node, plus random longer pairs and multi-byte UTF-8. Added later: every statement is also matched as decoded from its own IPLD and DAG-JSON form, and again on the first object after it matched other strings. Non-trivial = the pattern contains a wildcard or an escape. Distinct = distinct protocol lines.",
 		run:  runGlobStream,
 		eval: evalGlob,
 		cmp: func(line, g, m string) string {
